@@ -1,3 +1,4 @@
+import sys
 from typing import Optional
 
 from django.core.cache import BaseCache, caches
@@ -38,8 +39,10 @@ def get_component_media_cache() -> BaseCache:
                 "django-components-media",
                 {
                     "TIMEOUT": None,  # No timeout
-                    "MAX_ENTRIES": None,  # No max size
-                    "CULL_FREQUENCY": 3,
+                    # No max size. NOTE: Django reads `MAX_ENTRIES` only from `OPTIONS` and requires an int
+                    # (a top-level `"MAX_ENTRIES": None` is ignored and leaves the default of 300 entries,
+                    # after which a third of the scripts is culled - possibly in the middle of a render).
+                    "OPTIONS": {"MAX_ENTRIES": sys.maxsize},
                 },
             )
 
